@@ -2,6 +2,8 @@ SPECIFICATION Spec
 CONSTANTS
  MaxLen = 5
  NegLen = 2
+ PSplit = 6
+ MaxLenHigh = 5
  Exps <- ExpsFull
  Precs <- PrecsLow
 INVARIANT Lemmas
